@@ -193,8 +193,8 @@ class NameIndex(Slice):
                     findings.append(("violation", f"la x5, {ref} gives {regs[5]:#x}, element address is {want_addr:#x} ({kind})"))
                 elif regs[6] != want_val:
                     findings.append(("violation", f"load of {ref} gives {regs[6]:#x}, declared value {want_val:#x}"))
-                elif regs[10] != 77 or regs[9] != want_addr:
-                    findings.append(("violation", f"store to {ref} then load gives {regs[10]}, scratch register {regs[9]:#x}"))
+                elif regs[10] != 77:
+                    findings.append(("violation", f"store to {ref} then load gives {regs[10]} (stored 77)"))
                 else:
                     # ... and every OTHER declared byte still has its declared value (read through the memory system)
                     stored = set(range(want_addr, want_addr + size))
